@@ -416,6 +416,12 @@ func newC09Rig(c *ctx) (*c09Rig, error) {
 			return nil, fmt.Errorf("listener %s did not come up\n%s", a, rg.proc.LogTail(1500))
 		}
 	}
+	// the tunnels behind the two TLS-terminating tcp listeners see a connection that ends without a byte (the upstreams
+	// drop it: no prelude); the https side of the mixed listener answers a name no tcp route has
+	if err := waitTLSServing("warmup.invalid", r.tcpTLS, r.sinkTLS, r.mixA); err != nil {
+		r.close()
+		return nil, err
+	}
 	return r, nil
 }
 
